@@ -3,7 +3,7 @@ from propkit import job
 PROP = {
     "level": "fault_enumeration",
     "technique": "reference port-set model + socket census / routing monitors on fake sockets in synctest bubbles, race detector",
-    "parallel": 4,
+    "parallel": 5,
     "race_oracle": True,
     "race_files": ["extras/transport/udphop/", "extras/utils/portunion.go"],
     "jobs": [
@@ -15,9 +15,13 @@ PROP = {
             ["harness/extras/utils/c19_portunion_test.go"], "^TestVerifC19PortConcurrent$",
             ["port-concurrent"], race=True,
             timeout_quick=600, timeout_thorough=3600),
-        job("udphop-enum", "extras", "./transport/udphop/", "udphop",
+        job("udphop-enum-a", "extras", "./transport/udphop/", "udphop",
             ["harness/extras/transport/udphop/c19_hop_test.go"], "^TestVerifC19HopEnum$",
-            ["hop-enum"], race=True,
+            ["hop-enum-a"], race=True, env={"VERIF_C19_ENUM": "a"},
+            timeout_quick=900, timeout_thorough=5400),
+        job("udphop-enum-b", "extras", "./transport/udphop/", "udphop",
+            ["harness/extras/transport/udphop/c19_hop_test.go"], "^TestVerifC19HopEnum$",
+            ["hop-enum-b"], race=True, env={"VERIF_C19_ENUM": "b"},
             timeout_quick=900, timeout_thorough=5400),
         job("udphop", "extras", "./transport/udphop/", "udphop",
             ["harness/extras/transport/udphop/c19_hop_test.go"], "^TestVerifC19Hop(Addr|Long|Race)$",
@@ -41,7 +45,9 @@ PROP = {
              "virtual-clock gap in [Min,Max], open sockets == the two newest successfully created ones, every "
              "WriteTo recorded on the newest socket to server-IP:port-of-set with intact payload, a tagged packet "
              "injected on the previous and on the current socket is returned by ReadFrom (again at a random offset "
-             "< Min inside the interval); then Close (optionally with a reader blocked, with packets queued, at the "
+             "< Min inside the interval); read-deadline steps between hops (about 700 quick): the deadline expires with a reader blocked, or is set "
+             "in the past; ReadFrom must fail with a timeout net.Error without blocking; the deadline is then cleared or moved far ahead, the "
+             "stale timeout results are read, and the full write/inbound round (previous AND current socket deliver) must hold again; then Close (optionally with a reader blocked, with packets queued, at the "
              "very instant of the next hop, twice): every socket ever created closed exactly once, empty-queue reads "
              "fail without blocking, packets injected after Close never returned, every WriteTo fails, no socket "
              "is opened later. hop-long: random failure subsets (sparse, dense, bursts) over 9..200 hops. "
@@ -50,12 +56,14 @@ PROP = {
              "quiescent point. A history is non-trivial when it performed at least one hop attempt and reached "
              "Close; distinct = distinct (port set, interval, hops, failure subset, variant)."),
     "exhaustive_note": ("exhaustive within the stated bound: all 2^n subsets of failing socket creations for all "
-                        "hop counts n = 0..8 (511 fault histories, counter hop-enum.exhaustive_fault_subsets per "
+                        "hop counts n = 0..8 (511 fault histories, counter hop-enum-a/-b.exhaustive_fault_subsets per "
                         "pass), crossed with a sample (not all) of port sets / interval configurations / Close "
                         "variants; histories longer than 8 hops and all schedules are sampled, not enumerated"),
     "assumptions": [
         "sockets are fakes behind ListenUDPFunc (the injection point the package offers); kernel UDP behaviour is not exercised",
-        "fake sockets record deadlines/buffer sizes but never produce timeout errors, so recvLoop's timeout pass-through is not part of this check",
+        "fake sockets honour read deadlines on the virtual clock like a UDP socket (expired deadline: every read fails at once with a timeout net.Error; a deadline change wakes a blocked read); write deadlines and buffer sizes are only recorded",
+        "after an expired read deadline is extended/cleared the delivery clause is checked with packets that arrive once the caller has read the stale timeout results (<= queue size + 2); a packet arriving while the 1024-slot receive queue is still full of such results takes the code's documented queue-full drop path and is recorded as an observation (hop-long.probe_* counters), not judged",
+        "read deadlines are never left expired across a hop or Close, and the race part only uses deadlines that do not expire",
         "a failed socket creation is modelled as ListenUDPFunc returning (nil, error)",
         "WriteTo is called with the hop connection's own address (what quic-go passes)",
         "strings whose validity the documentation leaves open are not judged for accept/reject",
